@@ -9,7 +9,7 @@ CONSTANT RoleMenu <- RMa
 CONSTANT DocMenu <- DMr
 CONSTANT Lims <- L0
 CONSTANT MaxSteps = 8
-CONSTANT Thin = 12
+CONSTANT Thin = 6
 CONSTANT PageGap = FALSE
 SPECIFICATION Spec
 VIEW view
